@@ -3,33 +3,382 @@ import Pyab.Spec.Interval
 namespace Pyab.Proofs
 open Pyab Pyab.Spec
 
+/-! ### prefix sums -/
+
+theorem prefixSum_succ (w : List Nat) (i : Nat) :
+    prefixSum w (i + 1) = prefixSum w i + w[i]?.getD 0 := by
+  unfold prefixSum
+  rw [List.take_add_one, List.sum_append]
+  cases w[i]? <;> simp
+
+theorem prefixSum_zero (w : List Nat) : prefixSum w 0 = 0 := by
+  simp [prefixSum]
+
+theorem prefixSum_mono (w : List Nat) {i j : Nat} (hij : i ≤ j) :
+    prefixSum w i ≤ prefixSum w j := by
+  induction j with
+  | zero =>
+    have : i = 0 := by omega
+    subst this; exact Nat.le_refl _
+  | succ k ih =>
+    by_cases h : i = k + 1
+    · subst h; exact Nat.le_refl _
+    · have := ih (by omega)
+      rw [prefixSum_succ]; omega
+
+theorem prefixSum_of_length_le (w : List Nat) {i : Nat} (h : w.length ≤ i) :
+    prefixSum w i = total w := by
+  unfold prefixSum total
+  rw [List.take_of_length_le h]
+
+theorem prefixSum_le_total (w : List Nat) (i : Nat) : prefixSum w i ≤ total w := by
+  have h1 := prefixSum_mono w (Nat.le_max_left i w.length)
+  rw [prefixSum_of_length_le w (Nat.le_max_right i w.length)] at h1
+  exact h1
+
+/-! ### bisect -/
+
+theorem bisectLoop_spec (a : Array Num) (x : Dbl) (n : Nat)
+    (hmono : ∀ i j, i ≤ j → j < n → Num.dblLt x a[i]! = true → Num.dblLt x a[j]! = true) :
+    ∀ fuel lo hi, lo ≤ hi → hi - lo < fuel → hi ≤ n →
+      (∀ j, j < lo → Num.dblLt x a[j]! = false) →
+      lo ≤ Choice.bisectLoop a x fuel lo hi ∧ Choice.bisectLoop a x fuel lo hi ≤ hi ∧
+      (∀ j, j < Choice.bisectLoop a x fuel lo hi → Num.dblLt x a[j]! = false) ∧
+      (Choice.bisectLoop a x fuel lo hi < hi → Num.dblLt x a[Choice.bisectLoop a x fuel lo hi]! = true) := by
+  intro fuel
+  induction fuel with
+  | zero => intro lo hi _ h; omega
+  | succ fuel ih =>
+    intro lo hi hle hfuel hn hlo
+    unfold Choice.bisectLoop
+    by_cases hlt : lo < hi
+    · simp only [hlt, if_true]
+      have hmid1 : lo ≤ (lo + hi) / 2 := by omega
+      have hmid2 : (lo + hi) / 2 < hi := by omega
+      by_cases hP : Num.dblLt x a[(lo + hi) / 2]! = true
+      · simp only [hP, if_true]
+        obtain ⟨h1, h2, h3, h4⟩ := ih lo ((lo + hi) / 2) hmid1 (by omega) (by omega) hlo
+        refine ⟨h1, by omega, h3, ?_⟩
+        intro _
+        by_cases heq : Choice.bisectLoop a x fuel lo ((lo + hi) / 2) = (lo + hi) / 2
+        · rw [heq]; exact hP
+        · exact h4 (by omega)
+      · have hP' : Num.dblLt x a[(lo + hi) / 2]! = false := by simpa using hP
+        simp only [hP', Bool.false_eq_true, if_false]
+        have hlo' : ∀ j, j < (lo + hi) / 2 + 1 → Num.dblLt x a[j]! = false := by
+          intro j hj
+          cases hj' : Num.dblLt x a[j]! with
+          | false => rfl
+          | true => exact absurd (hmono j ((lo + hi) / 2) (by omega) (by omega) hj') hP
+        obtain ⟨h1, h2, h3, h4⟩ := ih ((lo + hi) / 2 + 1) hi (by omega) (by omega) hn hlo'
+        exact ⟨by omega, h2, h3, h4⟩
+    · simp only [hlt, if_false]
+      have : lo = hi := by omega
+      subst this
+      exact ⟨Nat.le_refl _, Nat.le_refl _, hlo, by intro h; simp at h⟩
+
 theorem bisect_partition (cum : List Num) (x : Dbl) (n : Nat) (hn : cum.length = n) (hpos : 0 < n)
     (hmono : ∀ i j, i ≤ j → j < n → Num.dblLt x cum[i]! = true → Num.dblLt x cum[j]! = true) :
     let i := Choice.bisect cum x 0 (n - 1)
     i ≤ n - 1 ∧ (∀ j, j < i → Num.dblLt x cum[j]! = false) ∧ (i < n - 1 → Num.dblLt x cum[i]! = true) := by
-  sorry
+  intro i
+  have _ := hn
+  have hmono' : ∀ i j, i ≤ j → j < n → Num.dblLt x cum.toArray[i]! = true →
+      Num.dblLt x cum.toArray[j]! = true := by
+    intro i j hij hj
+    simp only [List.getElem!_toArray]
+    exact hmono i j hij hj
+  have := bisectLoop_spec cum.toArray x n hmono' (n - 1 - 0 + 1) 0 (n - 1) (Nat.zero_le _)
+    (by omega) (by omega) (fun j hj => absurd hj (Nat.not_lt_zero _))
+  simp only [List.getElem!_toArray] at this
+  obtain ⟨_, h2, h3, h4⟩ := this
+  exact ⟨h2, h3, h4⟩
+
+/-! ### the interval rule: arithmetic -/
 
 theorem isSpecIdx_unique (w : List Nat) (h i j : Nat)
     (hi : IsSpecIdx w h i) (hj : IsSpecIdx w h j) : i = j := by
-  sorry
+  obtain ⟨_, hi1, hi2⟩ := hi
+  obtain ⟨_, hj1, hj2⟩ := hj
+  rcases Nat.lt_trichotomy i j with hlt | heq | hgt
+  · have := prefixSum_mono w (show i + 1 ≤ j by omega)
+    omega
+  · exact heq
+  · have := prefixSum_mono w (show j + 1 ≤ i by omega)
+    omega
 
 theorem isSpecIdx_zero (w : List Nat) (h i : Nat) (hz : w[i]? = some 0) : ¬ IsSpecIdx w h i := by
-  sorry
-
-theorem isSpecIdx_selectable (w : List Nat) (i : Nat) (hi : i < w.length) (hpos : 0 < total w)
-    (hspan : total w ≤ w[i]! * 2 ^ 32) : ∃ h, h < 2 ^ 32 ∧ IsSpecIdx w h i := by
-  sorry
+  rintro ⟨_, h1, h2⟩
+  rw [prefixSum_succ, hz] at h2
+  simp only [Option.getD_some, Nat.add_zero] at h2
+  omega
 
 theorem isSpecIdx_iff_range (w : List Nat) (h i : Nat) (hpos : 0 < total w) :
     IsSpecIdx w h i ↔
       (i < w.length ∧ (prefixSum w i * 2 ^ 32 + total w - 1) / total w ≤ h
         ∧ h < (prefixSum w (i + 1) * 2 ^ 32 + total w - 1) / total w) := by
-  sorry
+  unfold IsSpecIdx
+  have e1 : (prefixSum w i * 2 ^ 32 + total w - 1) / total w ≤ h ↔
+      prefixSum w i * 2 ^ 32 ≤ h * total w := by
+    rw [Nat.div_le_iff_le_mul_add_pred hpos, Nat.mul_comm (total w) h]
+    omega
+  have e2 : h < (prefixSum w (i + 1) * 2 ^ 32 + total w - 1) / total w ↔
+      h * total w < prefixSum w (i + 1) * 2 ^ 32 := by
+    rw [Nat.lt_iff_add_one_le, Nat.le_div_iff_mul_le hpos, Nat.add_mul]
+    omega
+  rw [e1, e2]
+
+theorem isSpecIdx_selectable (w : List Nat) (i : Nat) (hi : i < w.length) (hpos : 0 < total w)
+    (hspan : total w ≤ w[i]! * 2 ^ 32) : ∃ h, h < 2 ^ 32 ∧ IsSpecIdx w h i := by
+  have hsucc := prefixSum_succ w i
+  have hget : w[i]?.getD 0 = w[i]! := by
+    simp [hi]
+  rw [hget] at hsucc
+  have hle := prefixSum_le_total w (i + 1)
+  refine ⟨(prefixSum w i * 2 ^ 32 + total w - 1) / total w, ?_, ?_⟩
+  · rw [Nat.div_lt_iff_lt_mul hpos]
+    omega
+  · rw [isSpecIdx_iff_range w _ i hpos]
+    refine ⟨hi, Nat.le_refl _, ?_⟩
+    have hstep : (prefixSum w i * 2 ^ 32 + total w - 1) / total w + 1
+        = (prefixSum w i * 2 ^ 32 + total w - 1 + total w) / total w :=
+      (Nat.add_div_right _ hpos).symm
+    rw [Nat.lt_iff_add_one_le, hstep]
+    apply Nat.div_le_div_right
+    omega
+
+/-! ### exact binary64 arithmetic on small naturals -/
+
+theorem round_exact (m e : Int) (hm : m ≠ 0) (hb : m.natAbs < 2 ^ 53)
+    (he : -1074 ≤ e) (he2 : e ≤ 900) : Dbl.round m e = Dbl.fin m e := by
+  have hn0 : m.natAbs ≠ 0 := by omega
+  have hlog : m.natAbs.log2 < 53 := (Nat.log2_lt hn0).2 hb
+  unfold Dbl.round
+  simp only [beq_iff_eq, hm, if_false]
+  have hshift : max ((m.natAbs.log2 : Int) + 1 - 53) (-1074 - e) ≤ 0 := by omega
+  simp only [hshift, if_true]
+  have : ¬ ((m.natAbs.log2 : Int) + 1 + e > 1024) := by omega
+  simp only [this, if_false]
+
+theorem round_zero (e : Int) : Dbl.round 0 e = Dbl.fin 0 0 := by
+  simp [Dbl.round]
+
+theorem round_nat0 (k : Nat) (hk : k < 2 ^ 53) : Dbl.round (k : Int) 0 = Dbl.fin k 0 := by
+  by_cases h0 : k = 0
+  · subst h0; exact round_zero 0
+  · exact round_exact _ _ (by omega) (by simpa using hk) (by omega) (by omega)
+
+theorem ofNat_exact (k : Nat) (hk : k < 2 ^ 53) : Dbl.ofNat k = Dbl.fin k 0 :=
+  round_nat0 k hk
+
+theorem add_exact (a b : Nat) (h : a + b < 2 ^ 53) :
+    Dbl.add (Dbl.fin a 0) (Dbl.fin b 0) = Dbl.fin ((a + b : Nat) : Int) 0 := by
+  simp only [Dbl.add, Dbl.align, Dbl.pow2]
+  simp
+  rw [← Int.natCast_add]
+  exact round_nat0 _ h
+
+/-- a natural number as a Python float weight -/
+def fl (k : Nat) : Num := Num.f (Dbl.fin k 0)
+
+theorem numAdd_fl (a b : Nat) (h : a + b < 2 ^ 53) : Num.add (fl a) (fl b) = .ok (fl (a + b)) := by
+  simp only [fl, Num.add, Num.toDbl]
+  show Except.ok (Num.f (Dbl.add (Dbl.fin a 0) (Dbl.fin b 0))) = _
+  rw [add_exact a b h]
+
+theorem numAdd_fl_zero (a : Nat) (h : a < 2 ^ 53) : Num.add (fl a) (.f Dbl.zero) = .ok (fl a) :=
+  numAdd_fl a 0 h
+
+/-- running sums starting from `acc` -/
+def psums (acc : Nat) : List Nat → List Nat
+  | [] => [acc]
+  | w :: ws => acc :: psums (acc + w) ws
+
+theorem psums_length (acc : Nat) (ws : List Nat) : (psums acc ws).length = ws.length + 1 := by
+  induction ws generalizing acc with
+  | nil => rfl
+  | cons w ws ih => simp [psums, ih]
+
+theorem psums_getElem? (acc : Nat) (ws : List Nat) (j : Nat) (hj : j ≤ ws.length) :
+    (psums acc ws)[j]? = some (acc + (ws.take j).sum) := by
+  induction ws generalizing acc j with
+  | nil =>
+    have : j = 0 := by simpa using hj
+    subst this; simp [psums]
+  | cons w ws ih =>
+    cases j with
+    | zero => simp [psums]
+    | succ j =>
+      simp only [psums, List.getElem?_cons_succ, List.take_succ_cons, List.sum_cons]
+      rw [ih (acc + w) j (by simpa using hj)]
+      simp [Nat.add_assoc]
+
+theorem go_fl (acc : Nat) (ws : List Nat) (h : acc + ws.sum < 2 ^ 53) :
+    Choice.accumulate.go (fl acc) (ws.map fl) = .ok ((psums acc ws).map fl) := by
+  induction ws generalizing acc with
+  | nil => rfl
+  | cons w ws ih =>
+    simp only [List.sum_cons] at h
+    simp only [List.map_cons, Choice.accumulate.go, psums]
+    rw [numAdd_fl acc w (by omega)]
+    simp only [bind, Except.bind]
+    rw [ih (acc + w) (by omega)]
+    rfl
+
+theorem accumulate_fl (w0 : Nat) (ws : List Nat) (h : w0 + ws.sum < 2 ^ 53) :
+    Choice.accumulate ((w0 :: ws).map fl) = .ok ((psums w0 ws).map fl) := by
+  simp only [List.map_cons, Choice.accumulate]
+  exact go_fl w0 ws h
+
+theorem pow2_eq (k : Nat) : Dbl.pow2 k = 2 ^ k := by
+  simp only [Dbl.pow2, Nat.one_shiftLeft]
+
+theorem cmp_fin (k S : Nat)  :
+    Dbl.cmp (Dbl.fin k (-32)) (Dbl.fin S 0) = some (compare (k : Int) ((S : Int) * ((2 ^ 32 : Nat) : Int))) := by
+  have h1 : (-32 : Int) ≤ 0 := by decide
+  have h2 : ((0:Int) - -32).toNat = 32 := by decide
+  simp only [Dbl.cmp, Dbl.align, pow2_eq, h1, if_true, h2, Int.ofNat_eq_natCast]
+
+theorem cmp_fin0 (S : Nat)  :
+    Dbl.cmp (Dbl.fin (0 : Nat) 0) (Dbl.fin S 0) = some (compare (0 : Int) (S : Int)) := by
+  have h1 : (0 : Int) ≤ 0 := by decide
+  have h2 : ((0:Int) - 0).toNat = 0 := by decide
+  simp only [Dbl.cmp, Dbl.align, pow2_eq, h1, if_true, h2, Int.ofNat_eq_natCast, Nat.pow_zero,
+    Int.natCast_one, Int.mul_one, Int.natCast_zero]
+
+theorem lt_char (k S : Nat) (e : Int) (he : e = -32 ∨ (e = 0 ∧ k = 0)) :
+    Dbl.lt (Dbl.fin k e) (Dbl.fin S 0) = true ↔ k < S * 2 ^ 32 := by
+  rcases he with he | ⟨he, hk⟩
+  · subst he
+    unfold Dbl.lt
+    rw [cmp_fin, ← Int.natCast_mul, beq_iff_eq, Option.some_inj, Int.compare_eq_lt]
+    exact Int.ofNat_lt
+  · subst he; subst hk
+    unfold Dbl.lt
+    rw [cmp_fin0, beq_iff_eq, Option.some_inj, Int.compare_eq_lt]
+    have : (0 : Int) < (S : Int) ↔ 0 < S := by omega
+    rw [this]
+    omega
+
+theorem xval (h T : Nat) (hh : h < 2 ^ 32) (hT : T < 2 ^ 21) :
+    ∃ e, Dbl.mul (Choice.proba h) (Dbl.fin T 0) = Dbl.fin ((h * T : Nat) : Int) e
+      ∧ (e = -32 ∨ (e = 0 ∧ h * T = 0)) := by
+  unfold Choice.proba Dbl.ofNatDivPow2
+  by_cases h0 : h * T = 0
+  · refine ⟨0, ?_, Or.inr ⟨rfl, h0⟩⟩
+    rw [h0]
+    by_cases hz : h = 0
+    · subst hz
+      simp only [Int.ofNat_eq_natCast, Int.natCast_zero, round_zero, Dbl.mul, Int.zero_mul]
+    · rw [round_exact _ _ (by simp; omega) (by simp; omega) (by simp) (by simp)]
+      have : T = 0 := by
+        rcases Nat.mul_eq_zero.1 h0 with h | h
+        · exact absurd h hz
+        · exact h
+      subst this
+      simp only [Dbl.mul, Int.natCast_zero, Int.mul_zero, round_zero]
+  · have hz : h ≠ 0 := fun h' => h0 (by rw [h', Nat.zero_mul])
+    refine ⟨-32, ?_, Or.inl rfl⟩
+    rw [round_exact _ _ (by simp; omega) (by simp; omega) (by simp) (by simp)]
+    have hlt : h * T < 2 ^ 32 * 2 ^ 21 := Nat.mul_lt_mul'' hh hT
+    simp only [Dbl.mul, Int.ofNat_eq_natCast, ← Int.natCast_mul]
+    rw [round_exact _ _ (by omega) (by simp; omega) (by simp) (by simp)]
+    simp
+
+theorem mem_le_sum (l : List Nat) (x : Nat) (hx : x ∈ l) : x ≤ l.sum := by
+  induction l with
+  | nil => cases hx
+  | cons a l ih =>
+    rw [List.sum_cons]
+    rcases List.mem_cons.1 hx with h | h
+    · omega
+    · have := ih h; omega
+
+theorem le_zero_false (T : Nat) (hT : 0 < T) : Dbl.le (Dbl.fin T 0) Dbl.zero = false := by
+  have h1 : (0 : Int) ≤ 0 := by decide
+  have h2 : ((0 : Int) - 0).toNat = 0 := by decide
+  have h3 : compare (T : Int) 0 = .gt := by rw [Int.compare_eq_gt]; omega
+  simp only [Dbl.le, Dbl.zero, Dbl.cmp, Dbl.align, pow2_eq, h1, if_true, h2, Nat.pow_zero,
+    Int.ofNat_eq_natCast, Int.natCast_one, Int.mul_one, h3]
+
+theorem cum_getElem! (w0 : Nat) (ws : List Nat) (j : Nat) (hj : j ≤ ws.length) :
+    ((psums w0 ws).map fl)[j]! = fl (prefixSum (w0 :: ws) (j + 1)) := by
+  rw [List.getElem!_eq_getElem?_getD, List.getElem?_map, psums_getElem? w0 ws j hj]
+  simp [prefixSum]
+
+theorem cum_getLast? (w0 : Nat) (ws : List Nat) :
+    ((psums w0 ws).map fl).getLast? = some (fl (total (w0 :: ws))) := by
+  rw [List.getLast?_eq_getElem?, List.length_map, psums_length, Nat.add_sub_cancel,
+    List.getElem?_map, psums_getElem? w0 ws ws.length (Nat.le_refl _)]
+  simp [total]
 
 theorem choiceIdx_floatWeights_spec (w : List Nat) (h : Nat) (hh : h < 2 ^ 32)
     (hpos : 0 < total w) (hT : total w < 2 ^ 21) :
     ∃ i, Choice.choiceIdx (some h) w.length (some (w.map fun x => Num.f (Dbl.ofNat x))) none = .ok (.idx i)
       ∧ IsSpecIdx w h i := by
-  sorry
+  have hmap : (w.map fun x => Num.f (Dbl.ofNat x)) = w.map fl := by
+    apply List.map_congr_left
+    intro x hx
+    have : x ≤ total w := mem_le_sum w x hx
+    rw [ofNat_exact x (by omega)]; rfl
+  rw [hmap]
+  cases w with
+  | nil => simp [total] at hpos
+  | cons w0 ws =>
+    have htot : total (w0 :: ws) = w0 + ws.sum := by simp [total]
+    have hsum : w0 + ws.sum < 2 ^ 53 := by omega
+    have hacc := accumulate_fl w0 ws hsum
+    obtain ⟨e, hx, he⟩ := xval h (total (w0 :: ws)) hh hT
+    have hlen : ((psums w0 ws).map fl).length = (w0 :: ws).length := by
+      rw [List.length_map, psums_length, List.length_cons]
+    have hlast := cum_getLast? w0 ws
+    have hadd := numAdd_fl_zero (total (w0 :: ws)) (by omega)
+    have hle := le_zero_false (total (w0 :: ws)) hpos
+    have hget := cum_getElem! w0 ws
+    -- comparison against each cumulative weight
+    have hlt : ∀ j, j ≤ ws.length →
+        (Num.dblLt (Dbl.fin ((h * total (w0 :: ws) : Nat) : Int) e) ((psums w0 ws).map fl)[j]! = true ↔
+          h * total (w0 :: ws) < prefixSum (w0 :: ws) (j + 1) * 2 ^ 32) := by
+      intro j hj
+      rw [hget j hj]
+      exact lt_char _ _ e he
+    generalize hcum : (psums w0 ws).map fl = cum at hacc hlen hlast hget hlt
+    have hpart := bisect_partition cum (Dbl.fin ((h * total (w0 :: ws) : Nat) : Int) e)
+      (w0 :: ws).length hlen (by simp) (by
+        intro i j hij hj
+        have hj' : j ≤ ws.length := by simp at hj; omega
+        rw [hlt i (by omega), hlt j hj']
+        intro hlt1
+        have := prefixSum_mono (w0 :: ws) (show i + 1 ≤ j + 1 by omega)
+        exact Nat.lt_of_lt_of_le hlt1 (Nat.mul_le_mul_right _ this))
+    refine ⟨Choice.bisect cum (Dbl.fin ((h * total (w0 :: ws) : Nat) : Int) e) 0 ((w0 :: ws).length - 1), ?_, ?_⟩
+    · unfold Choice.choiceIdx
+      simp only [hacc]
+      simp only [bind, Except.bind, hlen, bne_self_eq_false, Bool.false_eq_true, if_false, hlast]
+      simp only [hadd]
+      simp only [fl, hle, Bool.false_eq_true, if_false, Dbl.isFinite, Bool.not_true, hx]
+      rfl
+    · obtain ⟨hp1, hp2, hp3⟩ := hpart
+      generalize Choice.bisect cum (Dbl.fin ((h * total (w0 :: ws) : Nat) : Int) e) 0
+        ((w0 :: ws).length - 1) = r at hp1 hp2 hp3
+      have hlen' : (w0 :: ws).length = ws.length + 1 := List.length_cons
+      rw [hlen'] at hp1 hp3
+      simp only [Nat.add_sub_cancel] at hp1 hp3
+      refine ⟨by omega, ?_, ?_⟩
+      · cases r with
+        | zero => rw [prefixSum_zero]; omega
+        | succ r' =>
+          have hf := hp2 r' (by omega)
+          have := (hlt r' (by omega)).2
+          rw [hf] at this
+          simp only [Bool.false_eq_true, imp_false] at this
+          omega
+      · by_cases hr : r < ws.length
+        · exact (hlt r (by omega)).1 (hp3 hr)
+        · have hr' : r = ws.length := by omega
+          rw [prefixSum_of_length_le (w0 :: ws) (by rw [hlen']; omega)]
+          have := Nat.mul_lt_mul_of_pos_right hh hpos
+          rw [Nat.mul_comm (2 ^ 32)] at this
+          exact this
 
 end Pyab.Proofs
